@@ -200,15 +200,14 @@ impl MT104 {
                     // These variants are for Field50Creditor
                     creditor = parser.parse_optional_variant_field::<Field50Creditor>("50")?;
                 }
-                _ => {
-                    // Unknown variant, try both
-                    if let Ok(ip) =
-                        parser.parse_optional_variant_field::<Field50InstructingParty>("50")
-                    {
-                        instructing_party = ip;
-                    } else {
-                        creditor = parser.parse_optional_variant_field::<Field50Creditor>("50")?;
-                    }
+                other => {
+                    // Not an option of field 50 in MT104
+                    return Err(crate::errors::ParseError::InvalidFormat {
+                        message: format!(
+                            "MT104: field 50{} is not a valid option (expected C, L, A or K)",
+                            other
+                        ),
+                    });
                 }
             }
         }
@@ -248,16 +247,14 @@ impl MT104 {
                         creditor_tx =
                             parser.parse_optional_variant_field::<Field50Creditor>("50")?;
                     }
-                    _ => {
-                        // Unknown variant, try both
-                        if let Ok(ip) =
-                            parser.parse_optional_variant_field::<Field50InstructingParty>("50")
-                        {
-                            instructing_party_tx = ip;
-                        } else {
-                            creditor_tx =
-                                parser.parse_optional_variant_field::<Field50Creditor>("50")?;
-                        }
+                    other => {
+                        // Not an option of field 50 in MT104
+                        return Err(crate::errors::ParseError::InvalidFormat {
+                            message: format!(
+                                "MT104: field 50{} is not a valid option (expected C, L, A or K)",
+                                other
+                            ),
+                        });
                     }
                 }
             }
